@@ -116,6 +116,15 @@ Fixpoint rc_get_var (c : rctx) (x : bytes) : value :=
   | None => match rc_parent c with Some p => rc_get_var p x | None => VNull end
   end.
 
+(* every variable the context can read, as the sandboxed include copies them: the own map, then the parent
+   contexts from the nearest on; a name that is already there is kept (the nearest definition wins) *)
+Definition rc_add_missing (acc vars : list (bytes * value)) : list (bytes * value) :=
+  fold_left (fun a kv => match assoc_bytes a (fst kv) with Some _ => a | None => a ++ [kv] end) vars acc.
+Fixpoint rc_flatten_vars (c : rctx) (acc : list (bytes * value)) : list (bytes * value) :=
+  let acc' := rc_add_missing acc (rc_vars c) in
+  match rc_parent c with Some p => rc_flatten_vars p acc' | None => acc' end.
+Definition rc_visible_vars (c : rctx) : list (bytes * value) := rc_flatten_vars c [].
+
 (* ctx.GetMacro: own macros, then the parent chain *)
 Fixpoint rc_get_macro (c : rctx) (x : bytes) : option (bytes * bytes) :=
   match assoc_bytes (rc_macros c) x with
